@@ -45,7 +45,11 @@ def main():
             out["demo_passes_without_change"] = r.returncode == 0
         r = sh(["git", "-C", "/repo", "apply", patch])
         if r.returncode != 0:
-            print("patch does not apply:", r.stderr); return 2
+            r = sh(["git", "-C", "/repo", "apply", "--3way", patch])
+            sh(["git", "-C", "/repo", "reset", "-q"])
+            if r.returncode != 0:
+                print(json.dumps({"patch": patch, "error": "patch does not apply: " + r.stderr[-400:], "checks": {}})); return 2
+            out["applied_with_3way"] = True
         r = sh(["go", "build", "./..."], cwd="/repo")
         out["compiles"] = r.returncode == 0
         if demo:
